@@ -36,6 +36,39 @@ func fromBoard(cfg tak.Config, board [][]tak.Square, ply int, ws, wc, bs, bc int
 	return tak.VerifFromRaw(raw)
 }
 
+// uncoverBoard: row r belongs to the mover except for one square held by an enemy flat; directly above (or below) it the
+// mover's flat sits on a stack of enemy flats too tall to be carried off whole, inside a row that is otherwise the
+// enemy's.  Sliding that flat onto the enemy flat completes the mover's row and uncovers the enemy's: a double road.
+func uncoverBoard(r *RNG, size int) *tak.Position {
+	board := emptyBoard(size)
+	mover := bothColors[r.Intn(2)]
+	other := mover.Flip()
+	row := r.Intn(size - 1)
+	up := row + 1
+	if r.Chance(1, 2) {
+		row, up = up, row
+	}
+	gx := r.Intn(size)
+	for x := 0; x < size; x++ {
+		board[row][x] = tak.Square{tak.MakePiece(mover, tak.Flat)}
+		board[up][x] = tak.Square{tak.MakePiece(other, tak.Flat)}
+	}
+	board[row][gx] = tak.Square{tak.MakePiece(other, tak.Flat)}
+	h := size + 1 + r.Intn(3)
+	st := make(tak.Square, h)
+	st[0] = tak.MakePiece(mover, tak.Flat)
+	for j := 1; j < h; j++ {
+		st[j] = tak.MakePiece(other, tak.Flat)
+	}
+	board[up][gx] = st
+	ply := 2 * (2 + r.Intn(30))
+	if mover == tak.Black {
+		ply++
+	}
+	cfg := tak.Config{Size: size, Pieces: 250, Capstones: 120, BlackWinsTies: r.Chance(1, 2)}
+	return fromBoard(cfg, board, ply, 5+r.Intn(20), r.Intn(2), 5+r.Intn(20), r.Intn(2))
+}
+
 // stackOf: a stack of height h with the given top and captives chosen by mode
 // (0 all own colour = hard, 1 all other colour = soft, 2 alternating, 3 random).
 func stackOf(r *RNG, top tak.Piece, h int, mode int) tak.Square {
@@ -893,6 +926,11 @@ func genC19(c *Ctx) {
 			case x < 84:
 				p = smallBoard(c.R, 3+c.R.Intn(3))
 				src = "src.smallboard"
+			case x < 88:
+				// the mover's only road-completing move uncovers a road of the other colour (double road: the mover wins,
+				// whatever the tie-break flag says)
+				p = uncoverBoard(c.R, size)
+				src = "src.uncover-double-road"
 			case x < 92:
 				// many separate road groups per colour (more than `size`, more than 2*size in all): the detector reads
 				// them through Analysis()
